@@ -6,7 +6,8 @@ LEVEL = "proof"
 EXPLANATION = (
     "Mutex clause: in the release functions (nsync_mu_unlock, nsync_mu_runlock, nsync_mu_unlock_without_wakeup, with "
     "nsync_mu_unlock_slow_ reached from them by its contract) the hook marks the mutex DEAD at the atomic step after which this thread "
-    "holds neither the lock nor the queue spinlock (from there another thread can acquire, learn it is the last user and free the "
+    "holds neither the lock nor the queue spinlock, or at which it posts a waiter while no longer holding the lock (from there another "
+    "thread can acquire, learn it is the last user and free the "
     "memory) and asserts at every later atomic access to the word that the mutex is not dead; proved on the real bodies for every "
     "word value and every interference. Waker clause: nsync_counter_add unlinks, clears the waiting flag and posts the semaphore of "
     "every waiter while HOLDING counter_mu, which the waiter's dequeue also takes (hook obligations at the flag store and at the post); the "
@@ -14,10 +15,10 @@ EXPLANATION = (
     "by a notifier) and never sleeps holding the note's lock; note_notify_child posts waiters only after clearing their flags (bounded tree group).")
 ASSUMPTIONS = ["accesses to mu->waiters (a plain field) after the releasing step are not tracked by the hook; on the paths proved it is read only under the spinlock"]
 NOT_DECIDED = ["cv wakers (wake_waiters) and non-native nsync_wait_n records: see DESIGN.md section 7.3",
-               "nsync_mu_unlock_slow_'s own body (reached through its contract here)"]
+               "nsync_mu_unlock_slow_'s own body is a BOUNDED check (every loop unwound 4x / 6x), listed under bounded"]
 TRUSTED = []
 
 
 def groups(tier):
-    return mu_groups(tags=["C13"], which=["mu.unlock", "mu.runlock", "mu.unlock_without_wakeup", "mu.release_spinlock"]) + \
+    return mu_groups(tags=["C13"], which=["mu.unlock", "mu.runlock", "mu.unlock_without_wakeup", "mu.release_spinlock", "mu.unlock_slow"]) + \
            cnt_groups(tags=["C13"], which=["counter.add"]) + sem_wait_groups(tags=["C13"]) + note_tree_groups(tags=["C13", "C08"])
